@@ -81,9 +81,13 @@ impl C01 {
             subs.push((id, p, d));
         };
         add("C10", Box::new(c10::C10::new(Tier::Quick)));
-        add("C11", Box::new(c11::C11::new(Tier::Quick)));
         add("C12", Box::new(c12::C12::new(Tier::Quick)));
-        add("C20", Box::new(c20::C20::new(Tier::Quick)));
+        if tier == Tier::Thorough {
+            add("C11", Box::new(c11::C11::new(Tier::Quick)));
+            add("C20", Box::new(c20::C20::new(Tier::Quick)));
+        } else {
+            add("C20", Box::new(c20::C20::shallow(5, 3)));
+        }
         #[cfg(lucid_suggest_verif)]
         {
             // direct-drive domains: no hit lists to digest, so they run in the checked build only
@@ -110,7 +114,7 @@ impl C01 {
             add("C08", Box::new(c08::C08::new(Tier::Quick)));
             add("C09", Box::new(c09::C09::new(Tier::Quick)));
         } else {
-            deferred = vec!["C02", "C03", "C04", "C05", "C06", "C07", "C08", "C09", "C13", "C14"];
+            deferred = vec!["C02", "C03", "C04", "C05", "C06", "C07", "C08", "C09", "C11", "C13", "C14", "C20 beyond depth 5"];
         }
         let mut map = Vec::new();
         let mut doms = Vec::new();
